@@ -159,7 +159,9 @@ pub trait QRDecomposableMatrix<T: RealNumber>: BaseMatrix<T> {
                 nrm = nrm.hypot(self.get(i, k));
             }
 
-            if nrm.abs() > T::epsilon() {
+            // treat a column as zero only when its norm is too small to divide by safely
+            // (an absolute threshold of machine epsilon would depend on the scale of the input)
+            if nrm.abs() > T::min_positive_value() / T::epsilon() {
                 if self.get(k, k) < T::zero() {
                     nrm = -nrm;
                 }
